@@ -40,6 +40,7 @@ Definition version := (N * N)%type.
 Record reqinfo := { rver : version;        (* req.protocol *)
                     is_head : bool;        (* req.method == 'HEAD' *)
                     has_host : bool;       (* bool(req.headers.get('Host')) *)
+                    host_ctl : bool;       (* the Host value contains a control character, space or DEL *)
                     te_chunked : bool;     (* Transfer-Encoding header says chunked *)
                     keepalive : bool }.    (* parser.should_keep_alive() when the request was built *)
 
@@ -111,6 +112,7 @@ Definition body_gate (c : conn) (a : answers) (f : pflags) (ri : reqinfo) (tags 
       if (negb (n =? 0)%Z || te_chunked ri) && negb (mc f) then (c, HRet [], tags)
       else if (n <? 0)%Z then reject c 400 (rver ri) (is_head ri) tags
       else if negb (is10 (rver ri)) && negb (has_host ri) then reject c 400 (rver ri) (is_head ri) tags
+      else if host_ctl ri then reject c 400 (rver ri) (is_head ri) tags
       else match a_path a with
            | Raise => (c, HRaise, tags)
            | Ret PRedirect => (c, HRet [IHttpError 301 (resp_version (rver ri)) (is_head ri)], tags)
@@ -268,3 +270,222 @@ Fixpoint run (secure : bool) (t : tables) (h : list op) : tables * list (list ef
   end.
 
 Definition op_sock (o : op) : nat := match o with Read s _ => s | Disc s => s end.
+
+(* ================================================================================================
+   Second, concrete layer: the decision HttpParser(kind = 0).execute takes about the HEAD of a request
+   (request line + header block) as a function of the bytes received so far on a fresh parser.
+   [classify] reads parsers/http.py: execute's first-line and header phases, _parse_request_line
+   (str.split(None, 2), METHOD_RE, urlsplit's fragment, VERSION_RE) and _parse_headers (CRLF CRLF search,
+   ':' test, HEADER_RE on the field name, continuation lines).  There are no size limits in that code.
+   Where the decision depends on library behaviour that is NOT modelled the verdict is [Unmodelled]:
+   a backslash in the head (str(..., 'unicode_escape') then decodes or raises), a byte >= 128 in the
+   request line (Unicode whitespace / netloc normalisation), '[' or ']' in the request target (urlsplit's
+   IPv6 checks raise ValueError).  On every other byte string the verdict is definite.
+   ================================================================================================ *)
+
+Inductive verdict :=
+| NeedMore                      (* nothing decided yet: execute returns, headers not complete, errno None *)
+| Bad (e : perr)                (* errno set before the headers are complete *)
+| HeadersOk                     (* is_headers_complete() *)
+| Unmodelled.
+
+Definition digit (c : N) : bool := (48 <=? c) && (c <=? 57).
+(* str.isspace() restricted to code points < 128 *)
+Definition is_sp (c : N) : bool := ((9 <=? c) && (c <=? 13)) || ((28 <=? c) && (c <=? 32)).
+
+(* data.find(b'\r\n'): bytes before / after the first CRLF *)
+Fixpoint cut_crlf (l : list N) : option (list N * list N) :=
+  match l with
+  | [] => None
+  | a :: t =>
+      match t with
+      | b :: t' =>
+          if (a =? 13) && (b =? 10) then Some ([], t')
+          else match cut_crlf t with Some (x, y) => Some (a :: x, y) | None => None end
+      | [] => None
+      end
+  end.
+
+Fixpoint starts_with (p l : list N) : bool :=
+  match p, l with
+  | [], _ => true
+  | a :: p', b :: l' => (a =? b) && starts_with p' l'
+  | _ :: _, [] => false
+  end.
+
+(* data.find(b'\r\n\r\n'): bytes before the first CRLF CRLF *)
+Fixpoint cut_crlf2 (l : list N) : option (list N) :=
+  match l with
+  | [] => None
+  | a :: t => if starts_with [13; 10; 13; 10] l then Some []
+              else match cut_crlf2 t with Some x => Some (a :: x) | None => None end
+  end.
+
+(* data.split(b'\r\n') *)
+Fixpoint split_crlf (fuel : nat) (l : list N) : list (list N) :=
+  match fuel with
+  | O => [l]
+  | S k => match cut_crlf l with
+           | None => [l]
+           | Some (x, y) => x :: split_crlf k y
+           end
+  end.
+
+Fixpoint drop_sp (l : list N) : list N :=
+  match l with c :: t => if is_sp c then drop_sp t else l | [] => [] end.
+Fixpoint take_tok (l : list N) : list N * list N :=      (* maximal run of non-whitespace, rest *)
+  match l with
+  | c :: t => if is_sp c then ([], l) else let '(x, y) := take_tok t in (c :: x, y)
+  | [] => ([], [])
+  end.
+
+(* line.split(None, 2) when it has exactly three parts *)
+Definition split3 (line : list N) : option (list N * list N * list N) :=
+  let '(t1, r1) := take_tok (drop_sp line) in
+  let '(t2, r2) := take_tok (drop_sp r1) in
+  let r3 := drop_sp r2 in
+  match t1, t2, r3 with
+  | _ :: _, _ :: _, _ :: _ => Some (t1, t2, r3)
+  | _, _, _ => None
+  end.
+
+(* METHOD_RE = ^[A-Z0-9$-_.]{1,20}$ : '$-_' is the RANGE 36..95 *)
+Definition method_ok (m : list N) : bool :=
+  (1 <=? length m)%nat && (length m <=? 20)%nat && forallb (fun c => (36 <=? c) && (c <=? 95)) m.
+
+(* urlsplit(target).fragment is non-empty: something follows the first '#' *)
+Fixpoint has_fragment (t : list N) : bool :=
+  match t with
+  | c :: r => if c =? 35 then match r with [] => false | _ => true end else has_fragment r
+  | [] => false
+  end.
+
+Fixpoint take_digits (l : list N) : list N * list N :=
+  match l with
+  | c :: t => if digit c then let '(x, y) := take_digits t in (c :: x, y) else ([], l)
+  | [] => ([], [])
+  end.
+
+(* VERSION_RE = ^HTTP/(\d+).(\d+)$ with backtracking: digits, one character other than LF, digits *)
+Definition digits_any_digits (s : list N) : bool :=
+  let '(d1, r) := take_digits s in
+  match r with
+  | [] => (3 <=? length s)%nat
+  | c :: d2 => negb (c =? 10) && negb (length d1 =? 0)%nat && negb (length d2 =? 0)%nat && forallb digit d2
+  end.
+Definition version_ok (v : list N) : bool :=
+  let v' := match rev v with 10 :: r => rev r | _ => v end in     (* '$' also matches before a final LF *)
+  starts_with [72; 84; 84; 80; 47] v' && digits_any_digits (skipn 5 v').
+
+Definition first_line (line : list N) : verdict :=
+  if existsb (fun c => (c =? 92) || (128 <=? c)) line then Unmodelled else
+  match split3 line with
+  | None => Bad BadFirstLine
+  | Some (m, t, v) =>
+      if negb (method_ok m) then Bad BadFirstLine
+      else if existsb (fun c => (c =? 91) || (c =? 93)) t then Unmodelled
+      else if has_fragment t then Bad BadFirstLine
+      else if version_ok v then HeadersOk else Bad BadFirstLine
+  end.
+
+(* HEADER_RE searched in the field name: controls 0..31, DEL, ( ) < > @ , ; : / [ ] = { } SP HT backslash and the double quote *)
+Definition name_bad (c : N) : bool :=
+  (c <=? 31) || (c =? 127) || existsb (N.eqb c) [40; 41; 60; 62; 64; 44; 59; 58; 47; 91; 93; 61; 123; 125; 32; 9; 92; 34].
+
+Fixpoint before_colon (l : list N) : option (list N) :=
+  match l with
+  | [] => None
+  | c :: t => if c =? 58 then Some [] else match before_colon t with Some x => Some (c :: x) | None => None end
+  end.
+Fixpoint rstrip_spht (l : list N) : list N :=       (* name.rstrip(' \t') *)
+  match l with
+  | [] => []
+  | c :: t => match rstrip_spht t with
+              | [] => if (c =? 32) || (c =? 9) then [] else [c]
+              | r => c :: r
+              end
+  end.
+Definition header_line_ok (l : list N) : bool :=
+  match before_colon l with
+  | None => false
+  | Some name => negb (existsb name_bad (rstrip_spht name))
+  end.
+Definition is_cont (l : list N) : bool :=
+  match l with c :: _ => (c =? 32) || (c =? 9) | [] => false end.
+
+Definition header_block (blk : list N) : verdict :=
+  if existsb (fun c => c =? 92) blk then Unmodelled else
+  match split_crlf (length blk) blk with
+  | [] => HeadersOk
+  | l1 :: ls =>
+      if header_line_ok l1 && forallb (fun l => is_cont l || header_line_ok l) ls
+      then HeadersOk else Bad InvalidHeader
+  end.
+
+Definition classify (bs : list N) : verdict :=
+  match cut_crlf bs with
+  | None => NeedMore
+  | Some (line, rest) =>
+      match first_line line with
+      | HeadersOk =>
+          if starts_with [13; 10] rest then HeadersOk
+          else match cut_crlf2 rest with
+               | None => NeedMore
+               | Some blk => header_block blk
+               end
+      | v => v
+      end
+  end.
+
+(* what _on_read reads from the parser when the head got this verdict *)
+Definition exec_agrees (a : answers) (v : verdict) : Prop :=
+  match v with
+  | NeedMore => exists m, a_exec a = Ret {| hc := false; perrno := None; mc := m |}
+  | Bad e => exists m, a_exec a = Ret {| hc := false; perrno := Some e; mc := m |}
+  | HeadersOk => exists f, a_exec a = Ret f /\ hc f = true
+  | Unmodelled => True
+  end.
+
+(* ================================================================================================
+   Bursts: several read / disconnect events are already queued when the loop runs.  The queue is FIFO (all
+   these events have priority 0) and a flush round dispatches what was queued before it started, so every
+   read and disconnect handler runs in the first round, in order, BEFORE any event of any cascade; the
+   cascades (exception / httperror / response / request / close) run in later rounds, interleaved by their
+   different lengths, but they touch the tables only through the guarded release of the _clients entry
+   and their effects do not depend on the tables.  Hence two phases: [phase1] threads the tables through
+   _on_read / _on_disconnect, [phase2] runs the cascades.  Effects are listed read-major (grouped by the
+   read that caused them, reads in queue order); the correspondence check regroups the real events the
+   same way, so it is this two-phase reading of the interleaving that is compared with the real loop.
+   ================================================================================================ *)
+Definition pending := (nat * answers * hres)%type.        (* socket, answers, what its _on_read returned *)
+
+Fixpoint phase1 (secure : bool) (t : tables) (h : list op) : tables * list pending * list (list tag) :=
+  match h with
+  | [] => (t, [], [])
+  | Read s a :: r =>
+      let '(c, hr, tags) := on_read secure (t s) a in
+      let '(t', ps, tg) := phase1 secure (upd t s c) r in
+      (t', (s, a, hr) :: ps, tags :: tg)
+  | Disc s :: r => phase1 secure (upd t s empty_conn) r
+  end.
+
+(* the cascade of one read, started in connection state c *)
+Definition cascade (c : conn) (a : answers) (hr : hres) : conn * list eff * list tag :=
+  match hr with
+  | HKeyError => (c, [ECrash], [])
+  | HRaise => match drain FUEL [IExc SRead] c a with Some r => r | None => (c, [EOutOfFuel], []) end
+  | HRet q => match drain FUEL q c a with Some r => r | None => (c, [EOutOfFuel], []) end
+  end.
+
+Fixpoint phase2 (t : tables) (ps : list pending) : tables * list (nat * list eff) * list (list tag) :=
+  match ps with
+  | [] => (t, [], [])
+  | (s, a, hr) :: r =>
+      let '(c, effs, tg) := cascade (t s) a hr in
+      let '(t', es, tgs) := phase2 (upd t s c) r in
+      (t', (s, effs) :: es, tg :: tgs)
+  end.
+
+Definition burst (secure : bool) (h : list op) : tables * list (nat * list eff) :=
+  let '(t1, ps, _) := phase1 secure empty_tables h in
+  let '(t2, es, _) := phase2 t1 ps in (t2, es).
